@@ -33,3 +33,8 @@ func verifRecovered(site string, r interface{}) {
 func VerifRecovered(site string, r interface{}) {
 	verifRecovered(site, r)
 }
+
+// VerifNewRulesBuilder exposes the (unexported) constructor of the rules builder.
+func VerifNewRulesBuilder(capacity int) *RulesBuilder {
+	return newRulesBuilder(capacity)
+}
